@@ -366,3 +366,23 @@ reg(
     level_text=("Dense enumeration of calendar edge cases and directive/flag/width combinations judged by an independent calendar. Right level: the defects are at leap days, ISO-week-year edges and leading-zero fractions, which example tests miss."),
     level_note="The offline checker (checkers/c17_dates.py) is trusted; it self-checks its calendar against Python's datetime at import.",
 )
+
+reg(
+    "C06",
+    title="conditionals render exactly one branch",
+    level="exploration",
+    technique="runtime monitoring with a two-layer oracle: (L1) the branch taken by `{% if a OP b %}` must equal the same operator on ValueViewCmp through the Rust API for every cell, (L2) an independent table on the cells whose meaning the statement fixes; if/elsif, unless, case/when and and/or chains against the reference interpreter with distinct branch markers",
+    design_ref="DESIGN.md §5 C06",
+    rule=("cases: (1) every operator (==, !=, <>, <, >, <=, >=, contains) x every ordered pair of a 32-value pool (nil, booleans, ints, floats equal to ints, numeric and other strings, blank strings, arrays, objects, empty/blank markers), each side as literal and through a variable; bare truthiness of every value under if and unless; "
+          "(2) if/elsif chains of 1..4 arms over all assignments of {true, false, undefined}, with and without else; unless; and/or chains of length <= 4 of the shape or* and*, all truth assignments; "
+          "(3) case/when with 1..4 arms, value lists with duplicates and overlaps, ',' and 'or' separators, target as literal and variable; (4) random nestings of if/unless/case with comparisons, contains, empty/blank tests and undefined names. "
+          "distinct = distinct (template, data); non-trivial = operands differ or are not plain scalars / at least two arms or atoms."),
+    exhaustive=True,
+    profiles={"quick": ["checked"], "thorough": ["checked"]},
+    floor={"quick": 40000, "thorough": 200000},
+    assumptions=["cells involving a boolean against a non-boolean, nil against a marker, or two markers are checked against the Rust API only (the statement defers to the value model there)",
+                 "and/or shapes other than or* and* are not generated (only that grouping is claimed)"],
+    level_text=("Exhaustive operator x operand matrix with a plumbing oracle and an independent semantic table, plus exhaustive truth assignments for chains. Right level: misparsed operators, literal-vs-variable differences and precedence "
+                "slips show up only when every cell and every assignment is tried."),
+    level_note="The L2 table (refm::eq / cmp / compare, about 100 lines) is trusted.",
+)
